@@ -13,6 +13,7 @@ from vlib.gj import viol, rng_for
 from vlib.ref import group as G
 
 ID = "C06"
+INPUTS_MUST_BE_UNCHANGED = True  # runner post-condition: no call modifies the input object it is given
 LEVEL = "exploration"
 DESIGN_REF = "DESIGN.md §4 C06"
 RULE = (
